@@ -40,8 +40,10 @@ func xPublic(r *lib.Rng, size int, low [][]byte, c uint64) (b []byte, class stri
 			b[size-1] |= 0x80
 		}
 		return b, "boundary"
-	case 2, 3:
+	case 2:
 		return r.EdgeBytes(size, c), "edge"
+	case 3:
+		return repLimbBytes(r, size, c, 0xff), "edge"
 	case 4:
 		b = make([]byte, size)
 		for i := range b {
@@ -138,21 +140,31 @@ func dhKinds() []kind {
 			curve4q.KeyGen(&p, &s)
 			o.Out("public", p[:])
 		}},
-		{"curve4q.Shared", 30, 3000, func(r *lib.Rng, k int, o *rec) {
+		{"curve4q.Shared", 90, 6000, func(r *lib.Rng, k int, o *rec) {
 			var s, s2, p, sh curve4q.Key
 			r.Read(s[:])
 			if k%4 == 0 {
 				copy(s[:], r.EdgeBytes(32, 1))
 			}
 			switch k % 3 {
-			case 0, 1: // honest public key
+			case 0: // honest public key
 				r.Read(s2[:])
 				curve4q.KeyGen(&p, &s2)
-				if k%6 == 1 { // damaged
+				if k%6 == 0 { // damaged
 					p[r.Intn(32)] ^= 1 << uint(r.Intn(8))
 				}
 			default:
-				copy(p[:], r.EdgeBytes(32, 1))
+				// an arbitrary encoding: y = y0 + y1*i with limb-edge
+				// coordinates (about half of all y are x-coordinates of a point)
+				if r.Bool() {
+					copy(p[:], r.EdgeBytes(32, 1))
+				} else {
+					copy(p[:], repLimbBytes(r, 32, 1, 0xff))
+				}
+				p[15] &= 0x7f
+				if r.Bool() {
+					p[31] &= 0x7f
+				}
 			}
 			o.In("secret", s[:])
 			o.In("public", p[:])
@@ -218,17 +230,19 @@ func dhKinds() []kind {
 }
 
 type sidhParam struct {
-	name string
-	id   uint8
-	mk   func(r *lib.Rng) *sidh.KEM
-	q, t int
+	name  string
+	id    uint8
+	mk    func(r *lib.Rng) *sidh.KEM
+	q, t  int
+	fpLen int  // bytes per field element
+	top   byte // mask of the most significant byte keeping every element below 2^(bits(p)-1) < p
 }
 
 func sidhKinds() []kind {
 	ps := []sidhParam{
-		{"p434", sidh.Fp434, func(r *lib.Rng) *sidh.KEM { return sidh.NewSike434(r) }, 4, 60},
-		{"p503", sidh.Fp503, func(r *lib.Rng) *sidh.KEM { return sidh.NewSike503(r) }, 3, 40},
-		{"p751", sidh.Fp751, func(r *lib.Rng) *sidh.KEM { return sidh.NewSike751(r) }, 2, 24},
+		{"p434", sidh.Fp434, func(r *lib.Rng) *sidh.KEM { return sidh.NewSike434(r) }, 4, 60, 55, 0x01},
+		{"p503", sidh.Fp503, func(r *lib.Rng) *sidh.KEM { return sidh.NewSike503(r) }, 3, 40, 63, 0x3f},
+		{"p751", sidh.Fp751, func(r *lib.Rng) *sidh.KEM { return sidh.NewSike751(r) }, 2, 24, 94, 0x3f},
 	}
 	var ks []kind
 	for _, p := range ps {
@@ -259,6 +273,47 @@ func sidhKinds() []kind {
 			prB.DeriveSecret(ssB, puA)
 			o.Out("ssA", ssA)
 			o.Out("ssB", ssB)
+		}})
+		// PublicKey.Import "doesn't perform any validation": the three GF(p^2)
+		// x-coordinates of a peer's key are arbitrary field elements, here
+		// with limb-edge values (each below p), pushed through the whole
+		// isogeny computation
+		ks = append(ks, kind{"sidh." + p.name + ".derive:arbitrary-public-key", 2 * p.q, 4 * p.t, func(r *lib.Rng, k int, o *rec) {
+			// only the A side: DeriveSecretB validates the peer's key and
+			// answers an invalid one with crypto/rand bytes (by design)
+			va, vb := sidh.KeyVariantSidhA, sidh.KeyVariant(sidh.KeyVariantSidhB)
+			pr := sidh.NewPrivateKey(p.id, va)
+			pu := sidh.NewPublicKey(p.id, vb)
+			o.OutErr("gen", pr.Generate(r))
+			e := make([]byte, pr.Size())
+			pr.Export(e)
+			o.In("prv", e)
+			pb := make([]byte, 0, pu.Size())
+			for i := 0; i < 6; i++ {
+				var el []byte
+				switch r.Intn(4) {
+				case 0:
+					el = r.EdgeBytes(p.fpLen, 1)
+					el[p.fpLen-1] &= p.top
+				case 1:
+					el = r.Bytes(p.fpLen)
+					el[p.fpLen-1] &= p.top
+				default:
+					el = repLimbBytes(r, p.fpLen, 1, p.top)
+				}
+				pb = append(pb, el...)
+			}
+			o.In("pub", pb)
+			if err := pu.Import(pb); err != nil {
+				o.OutErr("import", err)
+				return
+			}
+			re := make([]byte, pu.Size())
+			pu.Export(re)
+			o.Out("pub.re", re)
+			ss := make([]byte, pr.SharedSecretSize())
+			pr.DeriveSecret(ss, pu)
+			o.Out("ss", ss)
 		}})
 		ks = append(ks, kind{"sike." + p.name, p.q, p.t, func(r *lib.Rng, k int, o *rec) {
 			kem := p.mk(r)
